@@ -129,6 +129,36 @@ func c16ModelB() config.Network {
 	}
 }
 
+func c16HugeBans() map[string]string {
+	m := map[string]string{}
+	for k := 0; k < 1700; k++ {
+		m[fmt.Sprintf("203.%d.%d.7", k/250, k%250)] = fmt.Sprintf("ban number %04d of a long list", k)
+	}
+	return m
+}
+
+func c16HugeToml() string {
+	var b strings.Builder
+	b.WriteString(c16TomlA)
+	b.WriteString("[Banned]\n")
+	bans := c16HugeBans()
+	keys := make([]string, 0, len(bans))
+	for k := range bans {
+		keys = append(keys, k)
+	}
+	sort.Strings(keys)
+	for _, k := range keys {
+		fmt.Fprintf(&b, "%q = %q\n", k, bans[k])
+	}
+	return b.String()
+}
+
+func c16ModelHuge() config.Network {
+	m := c16ModelA()
+	m.Banned = c16HugeBans()
+	return m
+}
+
 func c16ModelDefault() config.Network {
 	// what config.DefaultConfig documents: 10 minutes expiration, 500 ms cool-off, nothing else
 	return config.Network{
@@ -706,6 +736,12 @@ func (c *c16Run) postConfig(kind string) {
 		body, hdr, badSig = c16TomlA, rev(c.rev+1), "future revision accepted"
 	case "postNoHeader":
 		body, hdr, badSig = c16TomlB, nil, "update without a revision accepted"
+	case "postHuge":
+		// a valid document of more than 64 KiB (a long ban list): every part of it has to be in force
+		body, hdr, accept, newCfg, newName = c16HugeToml(), rev(c.rev), true, c16ModelHuge(), "huge"
+	case "postHugeBad":
+		// more than 64 KiB, and the part that does not parse lies behind byte 65536
+		body, hdr, badSig = c16TomlA+"# "+strings.Repeat("padding padding padding padding padding padding padding padding\n# ", 1100)+"\nBroken = [\n", rev(c.rev), "unparsable update accepted [syntax error behind 64 KiB]"
 	}
 	b := c.before()
 	c.res.Requests++
@@ -849,7 +885,7 @@ func (c *c16Run) fsmBad() {
 	}
 }
 
-var c16Alphabet = []string{"postA", "postB", "postInvalid", "postWrongType", "postStale", "postFuture", "postNoHeader", "gline", "traffic", "snapshot", "restart", "fsmBad"}
+var c16Alphabet = []string{"postA", "postB", "postHuge", "postHugeBad", "postInvalid", "postWrongType", "postStale", "postFuture", "postNoHeader", "gline", "traffic", "snapshot", "restart", "fsmBad"}
 
 func TestVerifC16(t *testing.T) {
 	shard, _ := strconv.Atoi(os.Getenv("VERIF_SHARD"))
